@@ -223,10 +223,10 @@ def run(m, chk):
     error_covers(r, chk)
     from .extra import walk_once
 
-    walk_once(r, chk, ["curves.Curve.knot_remove", "curves.Curve.knot_clean"], floor=2, only=("nodes",))
+    walk_once(r, chk, ["curves.Curve.knot_remove", "curves.Curve.knot_clean"], floor=1, only=("nodes",))
     from .extra import abs_inside
 
-    abs_inside(r, chk, ["curves.Curve.fit_curve", "curves.Curve.clean"], floor=1)
+    abs_inside(r, chk, ["curves.Curve.fit_curve", "curves.Curve.clean"], floor=0)  # expected count zero; reductions written through a helper are not named `error`
     from .extra import dtype_agree
 
     dtype_agree(r, chk)
